@@ -133,8 +133,10 @@ theorem willExpire_of_due (s : Sched.State) (now lp : Nat) (hq : s.fdtQueue = []
   cases s.curFdt with
   | none => rfl
   | some k =>
-    simp only [hd, if_true, decide_eq_true_eq]
-    exact Lemmas.FdtAbs.sub_lt_sub_aux _ _ _ _ (Nat.le_of_lt (Nat.lt_trans (by decide) hd)) hdue
+    have hle : 5000000000 ≤ s.cfg.fdtDuration := Nat.le_of_lt (Nat.lt_trans (by decide) hd)
+    have hne : ¬ lp = now := Nat.ne_of_lt (Lemmas.FdtAbs.lt_of_due_aux _ _ _ _ hle hdue)
+    simp only [hne, if_false, hd, if_true, decide_eq_true_eq]
+    exact Lemmas.FdtAbs.sub_lt_sub_aux _ _ _ _ hle hdue
 
 theorem run_quiet (S : Sched.Cfg) (tbl : List Nat) (ops : List Sched.Op) : (Sched.run (Sched.init S tbl) ops).quiet = false :=
   (Sched.run_inv Sched.Wf.closed Sched.Wf.closedOps ops _ (by rw [Sched.heldOf_init]; exact Sched.Wf.init S tbl) rfl).2
